@@ -163,7 +163,7 @@ def st_stage(draw, op, node, m, ctx, allowed, budget):
     if op in ('filter_lazy', 'filter_eager'):
         mm = draw(st.integers(2, 3))
         return {'op': 'filter', 'm': mm, 'r': draw(st.integers(0, mm - 1)), 'lazy': op == 'filter_lazy',
-                'int': draw(st.booleans()), 'in': node}
+                'int': draw(st.sampled_from([False, True, 'seq'])), 'in': node}
     if op == 'slice':
         return {'op': 'slice', 'form': draw(st_slice_form(n, m)), 'in': node}
     if op == 'shuffle_once':
@@ -250,6 +250,13 @@ def st_stage(draw, op, node, m, ctx, allowed, budget):
         o = draw(st_source(ctx, kind='dict', keys=list(keys)))
         if draw(st.booleans()):
             o = {'op': 'map', 'fn': draw(st.integers(0, 3)), 'in': o}
+        top = draw(st.sampled_from([None, None, 'cache', 'copy', 'rev']))
+        if top == 'cache':
+            o = {'op': 'cache', 'lazy': True, 'in': o}  # the partner's top stage is a cache (other key order)
+        elif top == 'copy':
+            o = {'op': 'copy', 'freeze': False, 'in': o}
+        elif top == 'rev':
+            o = {'op': 'slice', 'form': {'k': 'slice', 'a': None, 'b': None, 'c': -1}, 'in': o}
         ins = [node, o]
         if draw(st.booleans()):
             ins = ins[::-1]
